@@ -280,6 +280,7 @@ def run_property(prop, tier, seed, driver_args, rule, extra_cov=None, assumption
         if models:
             mc = model_checks(d, tier, prop)
         files = []
+        hw_files = []
         tr = os.path.join(d, "trace_base.ndjson")
         died = None
         try:
@@ -303,9 +304,10 @@ def run_property(prop, tier, seed, driver_args, rule, extra_cov=None, assumption
         if handwritten:
             hpath, hcov = play_handwritten(d, seed)
             script_cov.update(hcov)
-            files.append((hpath, False))
+            hw_files = [(hpath, False)]     # judged as a chunk of their own (a known finding among them costs one more pass over a few lines only)
         cfg = "Trace_P_%s.cfg" % prop
-        for allrows in iter_chunks(files):
+        import itertools
+        for allrows in itertools.chain(iter_chunks(files), iter_chunks(hw_files) if hw_files else ()):
             rows = allrows
             for _ in range(12):
                 rt, l = judge(d, rows, cfg)
